@@ -33,7 +33,7 @@ STUBBED = ["none inside the calls; sequenceParameters.print / backendtools chatt
 ASSUMPTIONS = ["positions are Python ints (single, list or tuple); other types are outside the statement and not generated",
                "derived values are compared with the real code on a fresh object built from the substituted string (tolerance 1e-12)",
                "calls are atomic; interleaving = which live object's call runs next"]
-PROBES = ["caller_scribbles_on_returned_container", "op_not_followed_by_observation", "shuffled_copy_is_live_object", "object_created_mid_history", "related_objects", "pos_zero", "pos_negative", "pos_N_plus_1", "pos_huge", "dup_in_call", "dup_across_calls", "non_sty_in_range",
+PROBES = ["same_list_object_passed_again", "caller_scribbles_on_returned_container", "op_not_followed_by_observation", "shuffled_copy_is_live_object", "object_created_mid_history", "related_objects", "pos_zero", "pos_negative", "pos_N_plus_1", "pos_huge", "dup_in_call", "dup_across_calls", "non_sty_in_range",
           "set_after_clear", "dist_k_ge_3", "kappa_after_with_sites", "tuple_arg", "int_arg", "hostile_with_sites_held",
           "second_object_checked"]
 STY = "STY"
@@ -102,7 +102,12 @@ def gen_plan(streams, tier):
                 v = [pos() for _ in range(rnd.randrange(0, 6))]
                 if v and rnd.random() < 0.3:
                     v.append(rnd.choice(v))
-            ops.append({"k": "set", "o": o, "t": t, "v": v})
+            op_ = {"k": "set", "o": o, "t": t, "v": v}
+            if t == "list" and rnd.random() < 0.3:
+                op_["same_list"] = True        # the caller keeps one list object, edits it in place and passes it again
+            if rnd.random() < 0.2:
+                op_["kw"] = True               # set_phosphosites(phosphosites=...)
+            ops.append(op_)
         elif x < 0.55:
             ops.append({"k": "clear", "o": o})
         else:
@@ -179,6 +184,7 @@ def execute(plan, ctx):
     fresh = Fresh(SequenceParameters, ctx)
     seqs = list(plan["objects"])
     objs = [SequenceParameters(s) for s in seqs]
+    caller_list = []
     model = [[] for _ in seqs]          # 1-based positions, first-set order
     if len(seqs) > 1 and (sorted(seqs[1]) == sorted(seqs[0]) or sorted(seqs[1]) == sorted(seqs[0] * 2) or sorted(seqs[1]) == sorted(seqs[0] * 3)):
         ctx.probe("related_objects")
@@ -330,9 +336,17 @@ def execute(plan, ctx):
                 ctx.probe("tuple_arg")
             else:
                 arg = list(v)
+                if op.get("same_list"):
+                    del caller_list[:]
+                    caller_list.extend(v)
+                    arg = caller_list
+                    ctx.probe("same_list_object_passed_again")
             ctx.sig("set", op["t"], ",".join(sorted(classes)), min(len(model[i]), 4), len(objs))
             try:
-                objs[i].set_phosphosites(arg)
+                if op.get("kw"):
+                    objs[i].set_phosphosites(phosphosites=arg)
+                else:
+                    objs[i].set_phosphosites(arg)
                 raised = None
             except Exception as e:
                 raised = e
